@@ -636,6 +636,28 @@ def synthetic_call_protocol(rec, F):
     rec.floor(R, "VM functions that build a call frame themselves", n, 3)
 
 
+def runtime_error_has_error(rec, F):
+    R = rec.rule("F4.result-error", "ExecutionResult::RuntimeError promises an error object on the fiber (to_call_result and the REPL read fiber.error()): it is constructed only in a function that was handed the error instance, or after set_error/runtime_error on the same path. Conditions with no error object (deadlock) end the program through Exit")
+    n = 0
+    for fn in F.all_fns():
+        if fn.crate != "laythe_vm" or "::test" in fn.path or "laythe_vm::vm" not in fn.path or " as core::" in fn.path:
+            continue
+        for bi, si, s in fn.stmts():
+            r = s["r"]
+            if r["k"] != "agg" or not r.get("adt", "").endswith("ExecutionResult::RuntimeError"):
+                continue
+            n += 1
+            has_param = any("Instance" in (fn.locals[i] or "") for i in range(1, fn.argc + 1))
+            doms = [lastseg(t["f"]) for bj, t in fn.calls() if fn.dominates(bj, bi)]
+            # a result computed from a signal that already carried the error
+            from_signal = any(g[2] in ("RuntimeError",) or (isinstance(g[2], tuple) and "RuntimeError" in str(g[2])) for g in sem.dominating_guards(F, fn, bi))
+            ok = has_param or from_signal or any(d in ("set_error", "runtime_error", "runtime_error_from_str", "stack_unwind") for d in doms)
+            rec.inst(R, "%s: RuntimeError result backed by an error object" % fn.name, ok=ok, loc=loc_of(s["sp"]))
+            if not ok:
+                rec.finding(R, "F4.result-error/%s" % fn.name, "%s returns ExecutionResult::RuntimeError on a path where no error object was set on the fiber: when this happens inside a callback run by a native function, to_call_result looks for fiber.error() and aborts the host ('Error not set on vm executor')" % fn.path, loc=loc_of(s["sp"]), fn=fn.path)
+    rec.floor(R, "constructions of ExecutionResult::RuntimeError", n, 2)
+
+
 def backtrace_window(rec, F):
     R = rec.rule("F10.bt", "pause_unwind appends the instruction pointers of the frames not yet recorded: counting from the innermost frame it first skips the current_len already recorded and then takes additional_len (which is computed relative to that position); finish_unwind/error_backtrace pair frames with those ips innermost first")
     pu = F.fn("laythe_vm::fiber::Fiber::pause_unwind")
